@@ -35,9 +35,11 @@ THEOREMS = [
     "reply_any_encoding", "reply_attr_any_encoding", "reply_text_exact", "trim_only_nonleaf",
     "text_roundtrip_bounded", "attr_roundtrip_bounded",
     "tree_reparse_plain", "tree_reparse_pretty", "tree_roundtrip", "pretty_plain_same",
+    "refit_only_bound_prefixes", "attr_without_colon", "chunking_irrelevant",
+    "plain_tokens", "pretty_tokens", "plain_end_to_end", "pretty_end_to_end",
 ]
 
-PRE = "From SV Require Import Lib.Base Gen.C04Tables C04.Model."
+PRE = "From SV Require Import Lib.Base Gen.C04Tables C04.Model C04.Tokens."
 
 K_ENTITY = "C04:text-contains-entity-reference"
 K_QNAME = "C04:attr-value-looks-like-qname"
@@ -329,7 +331,7 @@ def is_legal(s):
 ENT_OF = {"<": "lt", ">": "gt", "&": "amp", '"': "quot", "'": "apos"}
 
 
-def write_pieces(rng, s, attr=False, q='"'):
+def write_pieces(rng, s, attr=False, q='"', maxlit=0x10ffff):
     """Encode s as a list of pieces ('lit'|'ent'|'dec'|'hex'|'cdata', payload),
     choosing among every form XML allows for each character."""
     pieces = []
@@ -343,11 +345,12 @@ def write_pieces(rng, s, attr=False, q='"'):
         lit_ok = ch not in "&<\r" and not (ch == ">" and k >= 2)
         if attr:
             lit_ok = ch not in "&<\r\n\t" and ch != q
+        lit_ok = lit_ok and c <= maxlit
         if lit_ok:
             opts += ["lit"] * (6 if style < 0.7 else 1)
         if ch in ENT_OF:
             opts += ["ent"] * 2
-        if not attr and ch != "\r":
+        if not attr and ch != "\r" and c <= maxlit:
             opts += ["cdata"] * (3 if style > 0.5 else 1)
         o = rng.choice(opts)
         if o == "lit":
@@ -359,7 +362,7 @@ def write_pieces(rng, s, attr=False, q='"'):
                 ok = d not in "&<\r" and not (d == ">" and kk >= 2)
                 if attr:
                     ok = d not in "&<\r\n\t" and d != q
-                if not ok:
+                if not ok or ord(d) > maxlit:
                     break
                 kk = kk + 1 if d == "]" else 0
                 j += 1
@@ -378,7 +381,7 @@ def write_pieces(rng, s, attr=False, q='"'):
             pieces.append(("hex", "0" * rng.choice([0, 0, 1, 2]) + h))
         else:
             j = i + 1
-            while j < len(s) and rng.random() < 0.8 and s[j] != "\r":
+            while j < len(s) and rng.random() < 0.8 and s[j] != "\r" and ord(s[j]) <= maxlit:
                 j += 1
             body = s[i:j]
             cut = body.find("]]>")
@@ -441,6 +444,9 @@ SCHEMA = """
 </xsd:sequence></xsd:complexType></xsd:element>
 """
 
+# (declared encoding of a reply, highest code point it can carry literally)
+ENCODINGS = [("UTF-8", 0x10ffff)] * 6 + [("UTF-16", 0x10ffff)] * 2 + [("ISO-8859-1", 0xff)] * 2 + [("US-ASCII", 0x7f)]
+
 CONFIGS = [(False, True), (True, True), (False, False), (True, False)]     # (prettyxml, prefixes)
 
 
@@ -477,12 +483,18 @@ class Clients(object):
         c._a = vs[4]
         return bytes(cl.service.f(s=vs[0], t=t, c=c).envelope)
 
-    def reply(self, raws, q):
-        """raws = raw content for (r, t.s, t@a, c, c@a) -> reply bytes"""
-        return ('<?xml version="1.0" encoding="UTF-8"?>'
-                '<e:Envelope xmlns:e="%s"><e:Body><Out xmlns="my-namespace">'
-                '<r>%s</r><t a=%s%s%s><s>%s</s></t><c a=%s%s%s>%s</c></Out></e:Body></e:Envelope>'
-                % (SOAPENV, raws[0], q, raws[2], q, raws[1], q, raws[4], q, raws[3])).encode("utf-8")
+    def reply(self, raws, q, encoding="UTF-8", indent=False):
+        """raws = raw content for (r, t.s, t@a, c, c@a) -> (reply bytes in `encoding`,
+        the same document in UTF-8 for the independent indexer).  indent: the
+        writer pretty-prints (whitespace only inside elements that have children)."""
+        def nl(k):
+            return "\n" + "  " * k if indent else ""
+        body = ('<e:Envelope xmlns:e="%s">%s<e:Body>%s<Out xmlns="my-namespace">'
+                '%s<r>%s</r>%s<t a=%s%s%s>%s<s>%s</s>%s</t>%s<c a=%s%s%s>%s</c>%s</Out>%s</e:Body>%s</e:Envelope>'
+                % (SOAPENV, nl(1), nl(2), nl(3), raws[0], nl(3), q, raws[2], q, nl(4), raws[1], nl(3), nl(3),
+                   q, raws[4], q, raws[3], nl(2), nl(1), nl(0)))
+        decl = '<?xml version="1.0" encoding="%s"?>' + ("\n" if indent else "")
+        return (decl % encoding + body).encode(encoding), (decl % "UTF-8" + body).encode("utf-8")
 
     def process_reply(self, data, via_inject):
         cl = self.client((False, True))
@@ -961,11 +973,13 @@ def run(ck):
         vs = [rng.choice(ppool) for _ in range(5)]
         if n < len(fixed) and is_legal(fixed[n]):
             vs = [fixed[n]] * 5
-        pcs = [write_pieces(rng, s, attr=(i in (2, 4)), q=q) for i, s in enumerate(vs)]
+        encoding, maxlit = rng.choice(ENCODINGS)
+        indent = rng.random() < 0.4
+        pcs = [write_pieces(rng, s, attr=(i in (2, 4)), q=q, maxlit=maxlit) for i, s in enumerate(vs)]
         raws = [render_pieces(p) for p in pcs]
-        data = clients.reply(raws, q)
+        sent, data = clients.reply(raws, q, encoding, indent)
         via_inject = n % 3 == 0
-        r = guard(clients.process_reply, data, via_inject)
+        r = guard(clients.process_reply, sent, via_inject)
         ix = guard(index_document, data)
         if ix[0] != "ok":
             raise RuntimeError("the independent writer produced an ill-formed reply: %s\n%r" % (ix[1], data))
@@ -984,9 +998,11 @@ def run(ck):
                 clist([c_piece(p) for p in pcs[i]], "piece"), cbool(bool(attr)), ord(q), cstr(raws[i]),
                 clist([cstr(c) for c in chunks], "str"), c_ostr(got)))
             meta.append({"value": s, "attr": bool(attr), "raw": raws[i], "got": got, "position": label,
-                         "reply": data.decode("utf-8"), "via": "__inject" if via_inject else "RequestContext.process_reply"})
+                         "reply": data.decode("utf-8"), "encoding": encoding,
+                         "via": "__inject" if via_inject else "RequestContext.process_reply"})
             ck.seen(("rep", raws[i], label), nontrivial=len(pcs[i]) > 1 or (pcs[i] and pcs[i][0][0] != "lit"))
             ck.count("rep-" + ("attr" if attr else "text"))
+            ck.count("rep-" + encoding + ("-indented" if indent else ""))
             for kind, _ in pcs[i]:
                 ck.count("piece-" + kind)
     res = run_grouped(ck, "rep", "rep_case", cases,
@@ -1039,7 +1055,7 @@ def run(ck):
             ck.seen(("tree", repr(t), pretty), nontrivial=bool(t[3]) or bool(t[2]))
             ck.count("tree-pretty" if pretty else "tree-plain")
     ck.sample({"group": "tree", "tree": meta[7]["tree"], "pretty": meta[7]["pretty"], "out": meta[7]["out"]})
-    res = run_grouped(ck, "tree", "tree_case", cases, ["tree_agrees", "tree_spec_ok"],
+    res = run_grouped(ck, "tree", "tree_case", cases, ["tree_agrees", "tree_spec_ok", "tree_tokens_ok"],
                       suspects=[i for i, m in enumerate(meta) if ENTITY_RE.search(m["tree"])], group=10)
     bad_spec = set(res["tree_spec_ok"])
     for i in sorted(bad_spec):
@@ -1053,6 +1069,9 @@ def run(ck):
     for i in res["tree_agrees"]:
         if i not in bad_spec or ENTITY_RE.search(meta[i]["tree"]):
             disagree("tree serialisation / parser", meta[i])
+    for i in res["tree_tokens_ok"]:
+        if i not in bad_spec:
+            disagree("XML grammar of coq/C04/Tokens.v vs expat", meta[i])
 
     lap("tree")
     # ------------------------------------------------------------------ thorough: the full sweep named by the quantifier
@@ -1068,7 +1087,8 @@ def run(ck):
                "declarations; a "
                "sample as arguments of a generated operation under 4 client configurations (5 positions per call) and, "
                "encoded by the independent writer under a random mix of literal/entity/decimal/hex/CDATA forms, as "
-               "reply content (5 positions per reply); random standalone trees under both serialisers re-read by "
+               "reply content (5 positions per reply; replies in UTF-8, UTF-16, ISO-8859-1 or US-ASCII, compact or "
+               "indented); random standalone trees under both serialisers re-read by "
                "suds' parser and expat. distinct = distinct (group, input, position, configuration); non-trivial = "
                "contains a markup-significant or whitespace character / uses a non-literal piece / has text or children"
                % (4 if thorough else 3, len(ALPHA), ALPHA, len(mid), len(longs)))
@@ -1148,8 +1168,10 @@ def replay(ck, payload):
             print("expat reads :", repr(dict(node.attrs).get(attr) if attr else node.text()), " sent:", repr(v))
         elif kind == "rep":
             cl = Clients()
-            print("reply:", payload["reply"])
-            print("suds returns now:", cl.process_reply(payload["reply"].encode("utf-8"), payload.get("via") == "__inject"))
+            print("reply (sent in %s):" % payload.get("encoding", "UTF-8"), payload["reply"])
+            enc_ = payload.get("encoding", "UTF-8")
+            data = payload["reply"].replace('encoding="UTF-8"', 'encoding="%s"' % enc_, 1).encode(enc_)
+            print("suds returns now:", cl.process_reply(data, payload.get("via") == "__inject"))
             print("position %s should be %r" % (payload["position"], v))
         else:
             print(payload)
